@@ -239,7 +239,7 @@ def decode_inst(E, m, fc, toks, bi, slot, operand, lidx, mk_jump, zero_of):
             if ptr.__class__ is not Ptr: ptr = E.int_to_ptr(st, ptr)
             # fast path: concrete in-bounds offset
             o = st.mem.get(ptr.obj); off = ptr.off
-            if o is not None and type(off) is int and 0 <= off and off + n <= o.size and o.kind not in ('freed', 'func') and o.arr is None:
+            if o is not None and type(off) is int and 0 <= off and off + n <= o.size and o.kind not in ('freed', 'func') and o.arr is None and not E.mt:
                 cells = o.data[off:off + n]
                 v = 0; i = 0
                 for c in cells:
